@@ -83,6 +83,8 @@ impl SubscriptionTrie {
       tracing::debug!(topic = ?String::from_utf8_lossy(topic), new_count = old_count - 1, "Unsubscribed");
       old_count == 1
     } else {
+      #[cfg(rzmq_verif)]
+      crate::verif::point("trie.unsub.underflow_window");
       final_node_r.count.fetch_add(1, Ordering::Relaxed);
       tracing::warn!(topic = ?String::from_utf8_lossy(topic), "Unsubscribe attempt on topic with zero count");
       false
